@@ -392,7 +392,9 @@ def r8_enforcement_chain(ctx, R8):
                     continue
                 seen.add(k)
                 n += 1
-                ok = k == f"self._response_options.{OPT}"
+                ro_fields = _ctor_fields(m, m.resolve_local(gr.module, "_ResponseOptions") or "")
+                by_index = T("idx", "self._response_options", str(ro_fields.index(OPT))) if OPT in ro_fields else None
+                ok = k in (f"self._response_options.{OPT}", by_index)  # attribute access or positional unpacking of the named tuple
                 ctx.ob(R8, gr.qual, "getresponse() builds the response with the stored option", ok, "" if ok else f"{OPT}={k}", witness=r.witness(), node=gr.node)
     ctx.sites(R8, n, 1, "HTTPResponse constructions in getresponse()")
     # hop 4: the response keeps it
